@@ -100,7 +100,7 @@ def main(argv):
     maxn = int(argv[argv.index("--max") + 1]) if "--max" in argv else 6
     jobs_n = int(argv[argv.index("--jobs") + 1]) if "--jobs" in argv else 4
     want = [a for a in argv if "::" in a]
-    fns = want or [q for q in contracts if not q.startswith("external::") and "#" not in q and not contracts[q].get("trusted")]
+    fns = want or [q for q in contracts if not q.startswith(("external::", "lemma::")) and "#" not in q and not contracts[q].get("trusted")]
     jobs = []
     import random
     rng = random.Random(int(os.environ.get("VERIF_SEED", "0")))
